@@ -39,9 +39,10 @@ PathUnderscore1(d) == IF Len(d) = 1 THEN "example.com_w" ELSE "example.com_w/" \
 ProbeTemplate == "file://" \o L!RootStr \o "/probe.templ"
 
 \* the bindings as a record: variable, or variable__pipeline for a function pipeline applied to it
-Bindings(d, n, tmpl, configDir, ifaceDirRel) ==
+\* ds: the spelling (segments) of the package directory d in this view
+Bindings(d, ds, n, tmpl, configDir, ifaceDirRel) ==
   [ConfigDir |-> configDir, InterfaceDirRelative |-> ifaceDirRel,
-   InterfaceDir |-> L!Abs(d), InterfaceFile |-> L!DocIfaceFile(d), InterfaceName |-> n,
+   InterfaceDir |-> L!Abs(ds), InterfaceFile |-> L!Abs(ds) \o "/" \o L!SrcFile(d), InterfaceName |-> n,
    Mock |-> IF Exported[n] THEN "Mock" ELSE "mock",
    SrcPackageName |-> L!PkgName(d), SrcPackagePath |-> L!PkgPath(d), Template |-> tmpl,
    InterfaceName__lower |-> Lower[n], InterfaceName__upper |-> Upper[n],
@@ -53,10 +54,12 @@ Bindings(d, n, tmpl, configDir, ifaceDirRel) ==
    InterfaceName__trimSufZa |-> n, InterfaceName__trimPreAb |-> n,
    SrcPackagePath__repl1 |-> PathUnderscore1(d),
    InterfaceFile__base |-> L!SrcFile(d), InterfaceFile__baseTrimGo |-> L!SrcStem(d),
-   InterfaceDir__dir |-> L!Abs(L!Parent(d)), InterfaceDir__base |-> L!Last(d)]
+   InterfaceDir__dir |-> L!Abs(L!Parent(ds)), InterfaceDir__base |-> L!Last(ds)]
 
-DocData(l, d, n, tmpl)  == Bindings(d, n, tmpl, L!DocConfigDir(l), L!DocIfaceDirRel(l, d))
-ImplData(l, d, n, tmpl) == Bindings(d, n, tmpl, L!ImplConfigDir(l), L!ImplIfaceDirRel(l, d))
+\* (the last element of a directory that IS the symlink has no documented value: the link's name or the target's)
+DocData(l, d, n, tmpl)  == [Bindings(d, d, n, tmpl, L!DocConfigDir(l), L!DocIfaceDirRel(l, d))
+                            EXCEPT !.InterfaceDir__base = IF l.via = "symroot" /\ Len(d) = 1 THEN UNSPECVAL ELSE @]
+ImplData(l, d, n, tmpl) == Bindings(d, L!IfSegs(l, d), n, tmpl, L!ImplConfigDir(l), L!ImplIfaceDirRel(l, d))
 
 -----------------------------------------------------------------------------
 (* variables a value mentions (through quotes too) *)
@@ -168,11 +171,12 @@ ResShape(s, f, p, d, t, tag) ==
 -----------------------------------------------------------------------------
 (* Layout ids and families of layouts *)
 LayoutId(l) == DirKey(l.cwd) \o "." \o l.mode \o "." \o DirKey(l.cfgdir) \o "." \o
-               (IF l.decoy = L!NoDecoy THEN "n" ELSE DirKey(l.decoy) \o (IF l.dname = ".mockery.yaml" THEN "a" ELSE ""))
+               (IF l.decoy = L!NoDecoy THEN "n" ELSE DirKey(l.decoy) \o (IF l.dname = ".mockery.yaml" THEN "a" ELSE "")) \o
+               (IF l.via = "phys" THEN "" ELSE "." \o l.via)
 
 \* layouts where the working directory is the config directory (no known deviation)
 \* (kept although no deviation is known any more: the reference-graph families need only a few layouts)
-HomeLayouts == {l \in L!AllLayouts : l.cfgdir = l.cwd /\ l.decoy = L!NoDecoy /\ l.mode \in {"search_yml", "flag_abs"}
+HomeLayouts == {l \in L!AllLayouts : l.via = "phys" /\ l.cfgdir = l.cwd /\ l.decoy = L!NoDecoy /\ l.mode \in {"search_yml", "flag_abs"}
                                      /\ l.cwd \in {<<"w">>, <<"w", "a">>}}
 
 MkCase(l, d, n, sid, tmpl, vs) ==
@@ -182,6 +186,7 @@ MkCase(l, d, n, sid, tmpl, vs) ==
    data |-> DocData(l, d, n, tmpl),
    impl |-> ImplData(l, d, n, tmpl),
    meta |-> [lid |-> LayoutId(l), cwd |-> L!Abs(l.cwd), mode |-> l.mode, cfgdir |-> L!Abs(l.cfgdir),
+             via |-> l.via, cwdlog |-> L!LogAbs(l, l.cwd), cfgdirlog |-> L!LogAbs(l, l.cfgdir), ifdirimpl |-> L!ImplIfaceDir(l, d),
              cfgname |-> L!CfgFileName(l.mode), param |-> L!ConfigParam(l), envparam |-> L!EnvParam(l),
              decoy |-> IF l.decoy = L!NoDecoy THEN "" ELSE L!Abs(l.decoy), decoyname |-> L!DecoyName(l), srcfile |-> L!SrcFile(d),
              decoy_may_win |-> L!DecoyMayWin(l),
@@ -263,6 +268,9 @@ ASSUME \E l \in L!AllLayouts : l.mode \in L!SearchModes /\ l.cfgdir # l.cwd
 ASSUME \E l \in L!AllLayouts : l.mode \in L!ExplicitModes /\ l.cfgdir # l.cwd
 ASSUME \E l \in L!AllLayouts : \E d \in L!ModDirs : L!DocIfaceDirRel(l, d) = L!UNSPEC
 ASSUME \E l \in L!AllLayouts : L!DecoyMayWin(l)
+\* the working directory reached through a symlinked module root / package directory, config found by searching
+ASSUME \E l \in L!AllLayouts : l.via = "symroot" /\ l.mode \in L!SearchModes /\ l.cfgdir # l.cwd /\ l.cfgdir # << >>
+ASSUME \E l \in L!AllLayouts : l.via = "symsub" /\ l.mode \in L!SearchModes /\ l.cfgdir = <<"w", "a">> /\ l.cwd # l.cfgdir
 \* a differently named config file further up than the real one, both ways round
 ASSUME \E l \in L!AllLayouts : l.mode = "search_yml" /\ l.decoy # L!NoDecoy /\ l.dname = ".mockery.yaml" /\ l.cfgdir = l.cwd
 ASSUME \E l \in L!AllLayouts : l.mode = "search_yaml" /\ l.decoy # L!NoDecoy /\ l.dname = ".mockery.yml" /\ l.cfgdir # l.cwd
